@@ -374,4 +374,73 @@ class E3(Component):
         ctx.label("E3:" + ftype)
 
 
-COMPONENTS = [RandomSet(), RandomEd(), E1(), E2(), E3()]
+class Dense(Component):
+    """All four threshold filters and OverlapFilter on the dense all-subsets tables of C02:
+    every left row shares the hub token with every right row, many rows have equal sizes."""
+    name = "dense"
+    kind = "enum"
+    exhaustive = True
+    rule = "every (filter, measure, threshold, n_jobs) over the all-subsets tables"
+
+    def bounds(self, tier):
+        return {"universe": 13 if tier == "quick" else 15,
+                "max_subset": 2 if tier == "quick" else 3}
+
+    def shards(self, tier):
+        return 16
+
+    def budget_s(self, tier):
+        return 200 if tier == "quick" else 3000
+
+    def cases(self, tier):
+        b = self.bounds(tier)
+        for ft in ("size", "prefix", "position", "suffix", "overlap"):
+            for m in (["OVERLAP"] if ft == "overlap" else SET_FILTER_MEASURES):
+                ts = [1, 2, 3] if m == "OVERLAP" else [0.05, 1.0 / 3, 0.5, 0.6667, 0.75, 1.0]
+                for t in ts:
+                    for nj in (1, 3):
+                        yield {"ftype": ft, "measure": m, "threshold": t, "n_jobs": nj,
+                               "universe": b["universe"], "max_subset": b["max_subset"]}
+
+    def check(self, case, ctx):
+        import pandas as pd
+        from .c02 import dense_rows
+        U, K = case["universe"], case["max_subset"]
+        subsets = dense_rows(U, K)
+        names = [chr(ord("a") + i) for i in range(U)]
+        vals = [" ".join([names[i] for i in c] + ["zhub"]) for c in subsets]
+        n = len(vals)
+        L = pd.DataFrame({"id": list(range(n)), "v": pd.Series(vals, dtype=object)})
+        R = pd.DataFrame({"id": list(range(1000, 1000 + n)), "v": pd.Series(vals, dtype=object)})
+        ft, m, t = case["ftype"], case["measure"], case["threshold"]
+        f = calls.make_filter(ctx, {"type": ft, "measure": m, "threshold": t},
+                              mk_tok({"kind": "ws", "return_set": True}))
+        if f is None:
+            return
+        with calls.backend(case["n_jobs"]):
+            df = ctx.lib(f.filter_tables, L, R, "id", "id", "v", "v", n_jobs=case["n_jobs"],
+                         show_progress=False)
+        if df is None:
+            return
+        got = set(zip(df["l_id"].tolist(), df["r_id"].tolist()))
+        sets = [frozenset(c) for c in subsets]
+        desc = "%s(%s, %r)" % (CLS[ft], m, t)
+        for i in range(n):
+            for j in range(n):
+                a, b = len(sets[i]) + 1, len(sets[j]) + 1
+                o = len(sets[i] & sets[j]) + 1
+                if oracle.classify(m, a, b, o, t, ">=") != "must":
+                    continue
+                if (i, 1000 + j) not in got:
+                    ctx.violation(drop_sig(ft),
+                                  "%s.filter_tables n_jobs=%d on the dense tables does not list "
+                                  "(%r, %r) with sizes/overlap %r"
+                                  % (desc, case["n_jobs"], vals[i], vals[j], (a, b, o)))
+                if (i + j) % 7 == 0 and ctx.lib(f.filter_pair, vals[i], vals[j]):
+                    ctx.violation(drop_sig(ft), "%s.filter_pair(%r, %r) drops a qualifying pair "
+                                  "(sizes/overlap %r)" % (desc, vals[i], vals[j], (a, b, o)))
+        ctx.nontrivial(len(got) < n * n)
+        ctx.label("dense:" + ft)
+
+
+COMPONENTS = [RandomSet(), RandomEd(), E1(), E2(), E3(), Dense()]
